@@ -450,6 +450,15 @@ type gcase struct {
 	// FocusOnly: fault sites are drawn among the focused invocations only (the other hints
 	// of the circuit belong to another property)
 	FocusOnly bool
+	// Unique: the gadget promises a single satisfying output even outside its domain (the
+	// documentation says "deterministic"): two satisfied runs of the same inputs must show the
+	// same probed values
+	Unique bool
+	// MayNotCompile: the gadget may reject the configuration at compile time (documented panic)
+	MayNotCompile bool
+	// BaseCheck inspects the hint calls of the honest pass on a compiled system (e.g. whether
+	// everything the prover could choose was committed before the challenge); "" = fine
+	BaseCheck func(honest []hintCall) string
 	// PostCheck inspects every faulted run, accepted or not (e.g. whether a Fiat-Shamir challenge
 	// still depends on the values the prover was made to change); "" = fine
 	PostCheck func(honest, faulted []hintCall, planned map[int]bool) string
@@ -554,6 +563,11 @@ func nemesisRun(w *Worker, tape *simrt.Tape, prop string, cases []*gcase, fields
 				o.Desc = "skipped: " + comp.err.Error()
 				return o
 			}
+			if gc.MayNotCompile {
+				o.probe("configuration_rejected_at_compile_time")
+				o.Desc = "rejected at compile time: " + gc.Name
+				return o
+			}
 			o.violate("compile-failed", "compile-failed:"+where, comp.err.Error())
 			return o
 		}
@@ -591,6 +605,18 @@ func nemesisRun(w *Worker, tape *simrt.Tape, prop string, cases []*gcase, fields
 		if msg := check(base.probes); msg != "" {
 			o.violate("baseline-wrong-output", "baseline-wrong-output:"+where, "with honest hints: "+msg+"\ncase: "+o.Desc)
 			return o
+		}
+	}
+	var firstAccepted map[int][]*big.Int
+	if err == nil {
+		firstAccepted = base.probes
+	}
+	if gc.BaseCheck != nil && builder != 2 && err == nil {
+		o.probe("base_check_evaluated")
+		if msg := gc.BaseCheck(base.calls); msg != "" {
+			if o.violateOrKnown(w, "challenge-not-bound", "challenge-not-bound:"+where, msg+"\ncase: "+o.Desc) {
+				return o
+			}
 		}
 	}
 	ncalls := len(base.calls)
@@ -721,6 +747,16 @@ func nemesisRun(w *Worker, tape *simrt.Tape, prop string, cases []*gcase, fields
 			continue
 		}
 		o.probe("faulty_answer_accepted")
+		if gc.Unique {
+			if firstAccepted == nil {
+				firstAccepted = n.probes
+			} else if d := diffProbes(firstAccepted, n.probes); d != "" {
+				if o.violateOrKnown(w, "second-satisfying-output", "second-satisfying-output:"+where, "the same inputs are satisfied with two different outputs: "+d+"\nfault: "+fd+"\ncase: "+o.Desc) {
+					o.Viol.Faults = fdesc
+					return o
+				}
+			}
+		}
 		// the circuit is satisfied: the outputs must still be the documented ones
 		msg := ""
 		if !sat && !free {
@@ -754,6 +790,22 @@ func nemesisRun(w *Worker, tape *simrt.Tape, prop string, cases []*gcase, fields
 		o.Sample = map[string]any{"case": o.Desc, "hint_calls": ncalls, "faulty_plans": nfaults}
 	}
 	return o
+}
+
+// diffProbes describes the first difference between two sets of probed values ("" if equal).
+func diffProbes(a, b map[int][]*big.Int) string {
+	for tag, va := range a {
+		vb, ok := b[tag]
+		if !ok || len(va) != len(vb) {
+			continue
+		}
+		for i := range va {
+			if va[i].Cmp(vb[i]) != 0 {
+				return fmt.Sprintf("probe %d value %d is %s in one satisfied run and %s in another", tag, i, va[i], vb[i])
+			}
+		}
+	}
+	return ""
 }
 
 func shortInts(v []*big.Int) string {
